@@ -1,0 +1,49 @@
+//go:build verif
+
+package unused
+
+// Contracts checked by /verif (vcgo). Comment-only: no executable code.
+// C05: a rename rewrites, in the file of the site, exactly the column range of the identifier on the site's line;
+// every other line of that file and every other file is unchanged.
+
+// a line without line break, spliced with a name without line break, has no line break (proved once per run)
+//@ lemma SpliceNoBreak: forall l string, m string, a int, b int :: {l[:a] + m + l[b:]} !Contains(l, "\n") && !Contains(m, "\n") && 0 <= a && a <= b && b <= len(l) ==> !Contains(l[:a] + m + l[b:], "\n")
+
+//@ func updateSelfRefs
+//@ requires info != nil && !Contains((*info).Method, "\n")
+//@ requires 0 <= method.Position.StartLine - 1 && method.Position.StartLine - 1 < len(Split(File(node.FilePath), "\n"))
+//@ requires 0 <= method.Position.StartLinePosition && method.Position.StartLinePosition <= method.Position.StopLinePosition &&
+//@    method.Position.StopLinePosition <= len(Split(File(node.FilePath), "\n")[method.Position.StartLine - 1])
+//@ modifies files
+//@ ensures len(Split(File(node.FilePath), "\n")) == old(len(Split(File(node.FilePath), "\n")))
+//@ ensures forall j int :: {Split(File(node.FilePath), "\n")[j]} 0 <= j && j < len(Split(File(node.FilePath), "\n")) && j != method.Position.StartLine - 1 ==>
+//@    Split(File(node.FilePath), "\n")[j] == old(Split(File(node.FilePath), "\n")[j])
+//@ ensures Split(File(node.FilePath), "\n")[method.Position.StartLine - 1] ==
+//@    old(Split(File(node.FilePath), "\n")[method.Position.StartLine - 1])[:method.Position.StartLinePosition] + (*info).Method +
+//@    old(Split(File(node.FilePath), "\n")[method.Position.StartLine - 1])[method.Position.StopLinePosition:]
+//@ ensures forall q string :: {File(q)} q != node.FilePath ==> File(q) == old(File(q))
+//@ loop 1 invariant len(lines) == len(Split(File(node.FilePath), "\n")) && File(node.FilePath) == old(File(node.FilePath))
+//@ loop 1 invariant forall j int :: {lines[j]} 0 <= j && j < len(lines) && (j != method.Position.StartLine - 1 || j >= #i) ==> lines[j] == Split(File(node.FilePath), "\n")[j]
+//@ loop 1 invariant method.Position.StartLine - 1 < #i ==> lines[method.Position.StartLine - 1] ==
+//@    Split(File(node.FilePath), "\n")[method.Position.StartLine - 1][:method.Position.StartLinePosition] + (*info).Method +
+//@    Split(File(node.FilePath), "\n")[method.Position.StartLine - 1][method.Position.StopLinePosition:]
+//@ loop 1 invariant forall k int :: {lines[k]} 0 <= k && k < len(lines) ==> !Contains(lines[k], "\n")
+// proof steps: splitting the joined text gives the lines back
+//@ assert before WriteFile#1 len(lines) >= 1 && len(Split(output, "\n")) == len(lines)
+//@ assert before WriteFile#1 forall k int :: {Split(output, "\n")[k]} 0 <= k && k < len(lines) ==> Split(output, "\n")[k] == lines[k]
+//@ loop 1 assert !Contains(line, "\n")
+//@ loop 1 assert !Contains(line[:method.Position.StartLinePosition] + (*info).Method + line[method.Position.StopLinePosition:], "\n")
+
+// which sites are rewritten: the declaration of a method named old in class old, and every call the model attributes to old
+// a rename request names package.Class.method on both sides, without line breaks
+//@ spec Qualified(x string) bool := Contains(x, ".") && Contains(After(x, "."), ".") && !Contains(x, "\n")
+//@ func startParse
+//@ requires forall r int :: {relates[r]} 0 <= r && r < len(relates) ==> Qualified(relates[r].OldObj) && Qualified(relates[r].NewObj)
+//@ modifies files
+//@ assert before updateSelfRefs#1 pkgNode.Package + pkgNode.NodeName == (*oldInfo).Package + (*oldInfo).Class && method.Name == (*oldInfo).Method
+//@ assert before updateSelfRefs#2 methodCall.Package + methodCall.NodeName == (*oldInfo).Package + (*oldInfo).Class && methodCall.FunctionName == (*oldInfo).Method
+
+// a call site is rewritten at the call's own position
+//@ func methodCallToMethodModel
+//@ ensures result.Position.StartLine == call.Position.StartLine && result.Position.StartLinePosition == call.Position.StartLinePosition && result.Position.StopLinePosition == call.Position.StopLinePosition
+//@ ensures result.Name == call.FunctionName
